@@ -246,13 +246,17 @@ func (e *Engine) intrinsic(fr *Frame, st *State, name string, fn *ssa.Function, 
 		return T{app("sbase", args[0].(T)), sRef}
 	case "GvcFresh":
 		x := args[0].(T)
+		since := "1"
+		if e.freshSince != "" {
+			since = e.freshSince
+		}
 		switch x.Sort {
 		case sRef:
-			return T{fmt.Sprintf("(>= (newid %s) 1)", x.S), sBool}
+			return T{fmt.Sprintf("(>= (newid %s) %s)", x.S, since), sBool}
 		case sSlice:
-			return T{fmt.Sprintf("(>= (newid (sbase %s)) 1)", x.S), sBool}
+			return T{fmt.Sprintf("(>= (newid (sbase %s)) %s)", x.S, since), sBool}
 		case sIface:
-			return T{fmt.Sprintf("(>= (newid (iref %s)) 1)", x.S), sBool}
+			return T{fmt.Sprintf("(>= (newid (iref %s)) %s)", x.S, since), sBool}
 		}
 		e.unsupported("GvcFresh on sort %s", x.Sort)
 	}
@@ -387,13 +391,30 @@ func (e *Engine) appendModel(fr *Frame, st *State, s T, tv Val, sT, tT types.Typ
 	if known == 1 {
 		// append(s, x): one explicit store, no quantifier for the appended element
 		x := e.name(tSel(tSel(h, tb), to), "x")
+		// (the contents of the grown array are given by the fw/bw axioms below, stated on the
+		// result; a separate copy axiom on arr, triggered by reads of arr, formed a matching loop
+		// with them: arr[i] -> old[so+i] -> new[fw(so+i)] -> arr[fw(so+i)] -> ...)
 		arr := e.fresh(inner, "arr")
-		e.assume(st, T{fmt.Sprintf("(forall ((i Int)) (! (=> (and (<= 0 i) (< i %s)) (= (select %s i) (select (select %s %s) (+ %s i)))) :pattern ((select %s i))))", n1.S, arr.S, h.S, sb.S, so.S, arr.S), sBool})
+		if os.Getenv("GVC_ARRAXIOM") != "" {
+			e.assume(st, T{fmt.Sprintf("(forall ((i Int)) (! (=> (and (<= 0 i) (< i %s)) (= (select %s i) (select (select %s %s) (+ %s i)))) :pattern ((select %s i))))", n1.S, arr.S, h.S, sb.S, so.S, arr.S), sBool})
+		}
 		inpl := tStore(h, sb, tStore(tSel(h, sb), T{fmt.Sprintf("(+ %s %s)", so.S, n1.S), sInt}, x))
 		grown := tStore(h, nb, tStore(arr, n1, x))
 		e.recStoreIf(st, hn, sb, inplace)
 		e.recStore(st, hn, nb)
-		e.setHeap(st, hn, tIte(inplace, inpl, grown))
+		if os.Getenv("GVC_APPENDSTORE") != "" {
+			e.setHeap(st, hn, tIte(inplace, inpl, grown))
+		} else {
+			// The result's backing array is a fresh array constant described by the fw/bw axioms and
+			// the fact about the appended element only - not `store(old array, len, x)`.  With the
+			// store term the array theory copies every index at which the new array is read to the
+			// old one (read over write), the forward axiom sends it on to the new one under a new
+			// name fw(k) (equal to k when the append is in place, which the E-graph learns late),
+			// and so on without end.  What is dropped is sound to drop: that cells of the same
+			// backing array outside [off, off+len] keep their value when the append is in place.
+			narr := e.fresh(inner, "narr")
+			e.setHeap(st, hn, tStore(h, rbase, narr))
+		}
 		// Old and new elements correspond index by index.  The correspondence is stated with a
 		// pair of index-mapping functions private to this append (fw: index in s's backing store
 		// -> index in the result's, bw its inverse) instead of index arithmetic in the terms: a
@@ -418,6 +439,9 @@ func (e *Engine) appendModel(fr *Frame, st *State, s T, tv Val, sT, tT types.Typ
 			fw, ro, so.S, bw, fw, so.S, so.S, n1.S, newArr.S, fw, oldArr.S, oldArr.S), sBool})
 		e.assume(st, T{fmt.Sprintf("(forall ((k Int)) (! (and (= (%s k) (+ %s (- k %s))) (= (%s (%s k)) k) (=> (and (<= %s k) (< k (+ %s %s))) (= (select %s k) (select %s (%s k))))) :pattern ((select %s k))))",
 			bw, so.S, ro, fw, bw, ro, ro, n1.S, newArr.S, oldArr.S, bw, newArr.S), sBool})
+		// the appended element as a ground read of the result: gives an existential goal about the
+		// result ("some k: r[k] is the new element") a term to be instantiated with
+		e.assume(st, T{fmt.Sprintf("(= (select %s (+ %s %s)) %s)", newArr.S, ro, n1.S, x.S), sBool})
 		return res
 	}
 	// new backing array contents
